@@ -31,6 +31,9 @@ type verifVISO struct {
 var verifFileLabels = [4]string{"file0", "file1", "file2", "file3"}
 var verifFilePaths = [4]string{"/d/f0", "/d/f1", "/d/f2", "/d/f3"}
 
+// verifFreshImage: member files not yet opened (the sequence harness creates that state itself)
+var verifFreshImage bool
+
 // verifAbstractVISO builds an arbitrary VirtualISO with k files that satisfies INV.
 func verifAbstractVISO(k int, faults bool, shortBudget int) *verifVISO {
 	a := &verifVISO{k: k}
@@ -53,7 +56,7 @@ func verifAbstractVISO(k int, faults bool, shortBudget int) *verifVISO {
 		a.fileObjs[i] = tmpl
 		a.stubFs.Entries = append(a.stubFs.Entries, &verifstub.Entry{Path: verifFilePaths[i], File: tmpl})
 		item := fileItem{path: verifFilePaths[i], size: sizeBytes(sz), rLBA: lba}
-		if verifrt.Bool(verifFileLabels[i] + ".alreadyopen") {
+		if !verifFreshImage && verifrt.Bool(verifFileLabels[i]+".alreadyopen") {
 			// an earlier read left this member file open, with its cursor anywhere
 			h := *tmpl
 			h.Path = verifFilePaths[i]
@@ -114,7 +117,7 @@ func VerifC09_ReadAt() {
 	total := int64(a.v.totalSize)
 	off := verifrt.Int64("off")
 	n := verifrt.Int("n")
-	maxbuf := verifrt.Bound("C09.maxbuf", 2*2048+1, 4*2048+1)
+	maxbuf := verifrt.Bound("C09.maxbuf", 2*2048+1, 3*2048+1)
 	verifrt.Assume(off >= 0)
 	verifrt.Assume(off < 1<<45)
 	verifrt.Assume(n >= 1)
@@ -153,7 +156,7 @@ func VerifC09_Read() {
 	verifrt.Assume(cur <= total)
 	a.v.offset = sizeBytes(cur)
 	n := verifrt.Int("n")
-	maxbuf := verifrt.Bound("C09.maxbuf", 2*2048+1, 4*2048+1)
+	maxbuf := verifrt.Bound("C09.maxbuf", 2*2048+1, 3*2048+1)
 	verifrt.Assume(n >= 1)
 	verifrt.Assume(n <= maxbuf)
 	buf := verifrt.Bytes("buf", n)
@@ -245,3 +248,45 @@ func VerifC09_ReadAtFaults() {
 
 var _ = os.ErrNotExist
 var _ afero.File = (*verifstub.File)(nil)
+
+// Three consecutive small reads on one image object: no state carried from one call to the next
+// (cached member-file cursors, remembered positions) may change what a read returns.
+func VerifC09_Sequence() {
+	verifFreshImage = true
+	a := verifAbstractVISO(1, false, 0)
+	verifFreshImage = false
+	verifrt.Assume(a.size[0] >= 16)
+	total := int64(a.v.totalSize)
+	labels := [3]string{"op0", "op1", "op2"}
+	sequential := verifrt.Bool("sequential") // all three through Seek+Read, or all three through ReadAt
+	for _, l := range labels {
+		off := verifrt.Int64(l + ".off")
+		n := verifrt.Int(l + ".n")
+		// scope: reads in a small window around the first byte of the member file (where cached cursors and
+		// remembered positions matter); the single-operation harnesses cover all other geometries
+		w := int64(verifrt.Bound("C09.seq.window", 1, 2))
+		verifrt.Assume(off >= a.start[0]-w)
+		verifrt.Assume(off <= a.start[0]+w)
+		verifrt.Assume(n >= 1)
+		verifrt.Assume(n <= verifrt.Bound("C09.seq.maxbuf", 2, 3))
+		buf := verifrt.Bytes(l+".buf", n)
+		var got int
+		var err error
+		if sequential {
+			_, serr := a.v.Seek(off, io.SeekStart)
+			verifrt.Assert(serr == nil, "sequence.seek")
+			got, err = a.v.Read(buf)
+		} else {
+			got, err = a.v.ReadAt(buf, off)
+		}
+		want := int64(n)
+		if total-off < want {
+			want = total - off
+		}
+		verifrt.Assert(int64(got) == want && (err == nil || err == io.EOF), "sequence.count")
+		j := verifrt.Int64(l + ".j")
+		verifrt.Assume(j >= 0)
+		verifrt.Assume(j < int64(got))
+		verifrt.Assert(buf[j] == a.image(off+j), "sequence.byte")
+	}
+}
